@@ -809,7 +809,7 @@ SPECS.update({
                 bounds=bounds_rel((
                     "exports of 1..4 rows over the actions Buy, Sell, Cancel Sell, Stock Plan Activity, four dividend kinds, two withholding kinds, Stock Split, Journal/Wire Sent, an unknown action; symbols {A,B}, days {0,1,2,30,31,40}, plain and 'as of' dates, amounts spelled plain / $ / $ with thousands commas / blank fees; every quantity, price, fee and amount symbolic; all pairs of 6 core actions; 11 cancel configurations, 9 dividend/withholding configurations, RSU rows with/without awards; row orders: reversal, rotation and all adjacent swaps; all cuts into two date-disjoint chunks for 10 exports; 10 hostile free-text descriptions (concrete samples)",
                     "as quick plus all triples of 5 actions")),
-                assumptions=["an identical sell is one with equal date, symbol, quantity and price (decided symbolically, so 'two identical sells, one cancel' and 'almost identical' are both explored)", "a withholding row with no same-day dividend of its symbol is dropped by the tool and pinned so by the suite: only 'same-day withholding keeps its total' is demanded", "free text: concrete samples only (the claim 'whatever the free-text fields contain' is not decided for all strings)"],
+                assumptions=["an identical sell is one with equal date, symbol, quantity and price (decided symbolically, so 'two identical sells, one cancel' and 'almost identical' are both explored)", "a withholding row with no same-day dividend of its symbol is dropped by the tool and pinned so by the suite: only 'same-day withholding keeps its total' is demanded", "free text: decided by PEGSMT for every Description/Symbol content of up to 8 bytes (12 thorough) under the byte-wise transfer measured on the real converter (see other_engines), plus 20 concrete hostile samples"],
                 outside=["arbitrary JSON shapes", "descriptions beyond the listed samples", "dividend rows with a blank amount"]),
     "C19": dict(id="C19", families=fam_c19, entry_points=["cgt_converter::schwab::awards::{parse_awards_json, extract_award_fmv, classify_award_action, AwardsData::get_fmv}", "cgt_converter::schwab::process_transactions (StockPlanActivity arm)", "cgt_core::parser::parse_file"],
                 bounds=bounds_rel((
@@ -865,3 +865,8 @@ SPECS["C16"] = dict(
         "as quick with symbolic quantities on the three-security ledgers")),
     assumptions=["built with the cfg-guarded hook (--cfg cgt_verif): crates/cgt-core/src/verif_map.rs replaces std::collections::HashMap in calculator.rs, matcher/mod.rs, matcher/bed_and_breakfast.rs; hash iteration order is the only source of cross-process variation in the core"],
     outside=["byte identity across processes and of PDF output (quantifies over OS-level executions)", "maps in cgt-money (FxCache: lookups only), cgt-converter (lookups/removals only), validation (lookups only)"])
+
+
+from . import c18extra  # noqa: E402
+
+SPECS["C18"]["extra_engines"] = [c18extra.freetext]
